@@ -162,9 +162,41 @@ pub fn run(tape: &[u8], cx: &Cx) -> Outcome {
         }
         v
     };
-    let a = mk(&mut t);
-    let b = mk(&mut t);
-    let c = mk(&mut t);
+    let (mut a, mut b, mut c) = (mk(&mut t), mk(&mut t), mk(&mut t));
+    // a fifth of the cases: long strings (block-wise comparison code paths) that agree on a long
+    // prefix and differ by one edit
+    if t.bool_p(50) {
+        let len = 12 + t.choose(40);
+        let base: Vec<u32> = (0..len).map(|_| alpha[t.weighted(&[5, 4, 2, 1, 1])]).collect();
+        let edit = |t: &mut Tape, base: &Vec<u32>| -> Vec<u32> {
+            let mut v = base.clone();
+            match t.choose(5) {
+                0 => {}
+                1 => {
+                    let k = t.choose(v.len() + 1);
+                    v.truncate(k);
+                }
+                2 => {
+                    let k = t.choose(v.len());
+                    v[k] = alpha[t.choose(5)];
+                }
+                3 => {
+                    let n = 1 + t.choose(20);
+                    for _ in 0..n {
+                        v.push(alpha[t.choose(3)]);
+                    }
+                }
+                _ => {
+                    let k = t.choose(v.len());
+                    v.remove(k);
+                }
+            }
+            v
+        };
+        a = edit(&mut t, &base);
+        b = edit(&mut t, &base);
+        c = edit(&mut t, &base);
+    }
     // digit strings
     let digits = gen_digits(&mut t);
     // a non-digit at a random position (possibly after an overflowing prefix)
@@ -192,7 +224,11 @@ pub fn run(tape: &[u8], cx: &Cx) -> Outcome {
     check_code(&digits[..digits.len().min(1)], &mut o);
     let big = r7::to_int(&digits).map_or(false, |v| v >= (1u128 << 31));
     let dirty_big = r7::to_int(&dirty[..pos]).map_or(false, |v| v >= (1u128 << 31));
-    o.nontrivial = big || dirty_big || (plen >= 1 && a.len() >= plen && b.len() >= plen && a[..plen] == b[..plen] && a != b);
+    let common = a.iter().zip(b.iter()).take_while(|(x, y)| x == y).count();
+    o.nontrivial = big || dirty_big || (common >= 1 && a != b);
+    if a.len().max(b.len()) >= 16 {
+        o.tag("strings>=16-chars");
+    }
     if big {
         o.tag("digits>=2^31");
     }
